@@ -359,3 +359,564 @@ Qed.
 Theorem put_overflow k bits data offset value len :
   8 * zlen data < offset + len -> put k bits data offset value len = Err BufferOverflow.
 Proof. intros H. unfold put. destruct (Z.ltb_spec (zlen data * 8) (offset + len)); [reflexivity|lia]. Qed.
+
+(** ---------- carriers: canonical values ---------- *)
+Lemma pow2_pos n : 0 <= n -> 0 < 2 ^ n.
+Proof. intros. apply Z.pow_pos_nonneg; lia. Qed.
+
+Lemma wrapc_mod k bits x : 0 < bits -> (wrapc k bits x) mod 2 ^ bits = x mod 2 ^ bits.
+Proof.
+  intros Hb. unfold wrapc. pose proof (pow2_pos bits ltac:(lia)) as Hp.
+  destruct (signed_kind k && _).
+  - replace (x mod 2 ^ bits - 2 ^ bits) with (x mod 2 ^ bits + (-1) * 2 ^ bits) by ring.
+    rewrite Z.mod_add by lia. apply Z.mod_mod. lia.
+  - apply Z.mod_mod. lia.
+Qed.
+Lemma wrapc_congr k bits x y : x mod 2 ^ bits = y mod 2 ^ bits -> wrapc k bits x = wrapc k bits y.
+Proof. intros H. unfold wrapc. rewrite H. reflexivity. Qed.
+Lemma wrapc_idem k bits x : 0 < bits -> wrapc k bits (wrapc k bits x) = wrapc k bits x.
+Proof. intros Hb. apply wrapc_congr. apply wrapc_mod. exact Hb. Qed.
+
+Definition canon (k : ckind) (bits v : Z) : Prop := wrapc k bits v = v.
+
+Lemma canon_wrapc k bits x : 0 < bits -> canon k bits (wrapc k bits x).
+Proof. intros. apply wrapc_idem. assumption. Qed.
+
+Lemma canon_range k bits v : 1 <= bits -> (canon k bits v <-> cmin k bits <= v <= cmax k bits).
+Proof.
+  intros Hb. unfold canon, wrapc, cmin, cmax.
+  assert (Hp : 2 ^ bits = 2 * 2 ^ (bits - 1)) by (replace bits with (1 + (bits - 1)) at 1 by lia; rewrite Z.pow_add_r by lia; reflexivity).
+  pose proof (pow2_pos (bits - 1) ltac:(lia)) as Hq. set (P := 2 ^ (bits - 1)) in *. rewrite Hp.
+  pose proof (Z.mod_pos_bound v (2 * P) ltac:(lia)) as Hm.
+  destruct (signed_kind k); cbn [andb].
+  - split.
+    + intros H'. destruct (Z.leb_spec P (v mod (2 * P))); lia.
+    + intros H'. destruct (Z_lt_ge_dec v 0) as [Hneg|Hpos].
+      * assert (E : v mod (2 * P) = v + 2 * P) by (symmetry; apply Z.mod_unique with (-1); lia).
+        rewrite E. destruct (Z.leb_spec P (v + 2 * P)); lia.
+      * rewrite Z.mod_small by lia. destruct (Z.leb_spec P v); lia.
+  - split.
+    + intros H'. lia.
+    + intros H'. apply Z.mod_small. lia.
+Qed.
+
+Lemma lor_range a b n : 0 <= n -> 0 <= a < 2 ^ n -> 0 <= b < 2 ^ n -> 0 <= Z.lor a b < 2 ^ n.
+Proof.
+  intros Hn Ha Hb. split; [apply Z.lor_nonneg; lia|]. apply lt_pow2_of_bits; [apply Z.lor_nonneg; lia|lia|].
+  intros m Hm. rewrite Z.lor_spec.
+  assert (Hbit : forall x, 0 <= x < 2 ^ n -> Z.testbit x m = false).
+  { intros x Hx. destruct (Z.eq_dec x 0) as [->|Hz]; [apply Z.bits_0|]. apply Z.bits_above_log2; [lia|].
+    apply Z.lt_le_trans with n; [apply Z.log2_lt_pow2; lia|lia]. }
+  rewrite (Hbit a Ha), (Hbit b Hb). reflexivity.
+Qed.
+
+(** a value lies in the signed range of [b] bits iff all its bits from b-1 upwards agree *)
+Lemma signed_range_bits b x : 1 <= b ->
+  (- 2 ^ (b - 1) <= x < 2 ^ (b - 1) <-> forall m, b - 1 <= m -> Z.testbit x m = Z.testbit x (b - 1)).
+Proof.
+  intros Hb. pose proof (pow2_pos (b - 1) ltac:(lia)) as Hp. split.
+  - intros Hr m Hm. destruct (Z_lt_ge_dec x 0) as [Hneg|Hpos].
+    + assert (Hall : forall j, b - 1 <= j -> Z.testbit x j = true).
+      { intros j Hj. replace x with (- (- x)) by lia. rewrite Z.bits_opp by lia.
+        replace (Z.testbit (Z.pred (- x)) j) with false; [reflexivity|]. symmetry.
+        destruct (Z.eq_dec (Z.pred (- x)) 0) as [->|Hz]; [apply Z.bits_0|].
+        apply Z.bits_above_log2; [lia|]. apply Z.lt_le_trans with (b - 1); [apply Z.log2_lt_pow2; lia|lia]. }
+      rewrite (Hall m Hm), (Hall (b - 1)) by lia. reflexivity.
+    + assert (Hall : forall j, b - 1 <= j -> Z.testbit x j = false).
+      { intros j Hj. destruct (Z.eq_dec x 0) as [->|Hz]; [apply Z.bits_0|].
+        apply Z.bits_above_log2; [lia|]. apply Z.lt_le_trans with (b - 1); [apply Z.log2_lt_pow2; lia|lia]. }
+      rewrite (Hall m Hm), (Hall (b - 1)) by lia. reflexivity.
+  - intros Hbits. destruct (Z.testbit x (b - 1)) eqn:Hs.
+    + (* all high bits set: negative *)
+      assert (Hneg : x < 0).
+      { apply Z.bits_iff_neg_ex. exists (b - 1). intros m Hm. rewrite Hbits by lia. reflexivity. }
+      assert (Hy : Z.pred (- x) < 2 ^ (b - 1)).
+      { apply lt_pow2_of_bits; [lia|lia|]. intros m Hm.
+        assert (Hx : Z.testbit x m = true) by (rewrite Hbits by lia; reflexivity).
+        replace x with (- (- x)) in Hx by lia. rewrite Z.bits_opp in Hx by lia. destruct (Z.testbit (Z.pred (- x)) m); [discriminate|reflexivity]. }
+      lia.
+    + assert (Hpos : 0 <= x).
+      { apply Z.bits_iff_nonneg_ex. exists (b - 1). intros m Hm. rewrite Hbits by lia. reflexivity. }
+      split; [lia|]. apply lt_pow2_of_bits; [lia|lia|]. intros m Hm. rewrite Hbits by lia. reflexivity.
+Qed.
+
+Lemma canon_lor k bits a b : 1 <= bits -> canon k bits a -> canon k bits b -> canon k bits (Z.lor a b).
+Proof.
+  intros Hb Ha Hc. rewrite canon_range in * by exact Hb. unfold cmin, cmax in *. destruct (signed_kind k).
+  - assert (Hra : - 2 ^ (bits - 1) <= a < 2 ^ (bits - 1)) by lia. assert (Hrb : - 2 ^ (bits - 1) <= b < 2 ^ (bits - 1)) by lia.
+    rewrite signed_range_bits in Hra, Hrb by exact Hb.
+    assert (Hr : - 2 ^ (bits - 1) <= Z.lor a b < 2 ^ (bits - 1)).
+    { apply signed_range_bits; [exact Hb|]. intros m Hm. rewrite !Z.lor_spec, (Hra m Hm), (Hrb m Hm). reflexivity. }
+    lia.
+  - pose proof (lor_range a b bits ltac:(lia) ltac:(lia) ltac:(lia)). lia.
+Qed.
+
+Lemma canon_0 k bits : 1 <= bits -> canon k bits 0.
+Proof. intros Hb. apply canon_range; [exact Hb|]. unfold cmin, cmax. pose proof (pow2_pos (bits - 1) ltac:(lia)). pose proof (pow2_pos bits ltac:(lia)). destruct (signed_kind k); lia. Qed.
+
+(** ---------- one byte of Parser::parse ---------- *)
+Section ParseStep.
+  Variables (k : ckind) (bits lh_st rh_en dlen len : Z).
+  Hypothesis Hlh : 0 <= lh_st < 8.
+  Hypothesis Hrh : 0 <= rh_en < 8.
+  Hypothesis Hdlen : 1 <= dlen.
+  Hypothesis Hsum : 8 * dlen = lh_st + len + rh_en.
+  Hypothesis Hlen : 1 <= len <= bits.
+  Hypothesis Hbits : 8 <= bits.
+
+  Ltac usub_ok :=
+    unfold usub; cbn [bind]; repeat match goal with |- context [if ?b <=? ?a then _ else _] => destruct (Z.leb_spec b a); [|lia]; cbn [bind] end.
+
+  (** the bit of window byte i that bit m of the field value comes from *)
+  Definition src_t (i m : Z) : Z := m - (len + lh_st - 8 * (i + 1)).
+
+  Lemma testbit_masked d bset t : 0 <= d < 256 -> 0 <= t -> Z.testbit (Z.land d bset) t = Z.testbit d t && Z.testbit bset t.
+  Proof. intros. apply Z.land_spec. Qed.
+
+  Lemma parse_step_ok i d val : 0 <= i < dlen -> 0 <= d < 256 -> canon k bits val ->
+    exists val', parse_step k bits lh_st rh_en dlen i d (lenlft_in lh_st len i) val = Ok (val', lenlft_out lh_st dlen len i) /\
+                 canon k bits val' /\
+                 forall m, 0 <= m < bits ->
+                   Z.testbit val' m = Z.testbit val m ||
+                     ((0 <=? src_t i m) && (src_t i m <? 8) && in_bset lh_st rh_en dlen i (src_t i m) && Z.testbit d (src_t i m)).
+  Proof.
+    intros Hi Hd Hcv. unfold parse_step, lenlft_in, lenlft_out, in_bset, src_t.
+    assert (Hb1 : 1 <= bits) by lia.
+    destruct (Z.eqb_spec i 0) as [F|F]; destruct (Z.eqb_spec i (dlen - 1)) as [L|L].
+    - (* single byte *)
+      usub_ok. unfold u8_cast.
+      eexists. split; [f_equal; f_equal; lia|]. split; [apply canon_lor; [lia|exact Hcv|apply canon_wrapc; lia]|].
+      intros m Hm. rewrite Z.lor_spec. f_equal. rewrite testbit_wrapc by lia.
+      replace (rh_en - (len - (8 - lh_st - rh_en))) with rh_en by lia.
+      rewrite Z.shiftr_spec by lia. rewrite !Z.land_spec.
+      destruct (Z.leb_spec 0 (m - (len + lh_st - 8 * (i + 1)))) as [Hz0|Hz0]; [|lia].
+      replace (m - (len + lh_st - 8 * (i + 1))) with (m + rh_en) by lia.
+      destruct (Z.ltb_spec (m + rh_en) 8) as [Hz8|Hz8]; cbn [andb].
+      + rewrite testbit_mask_r, testbit_mask_l by lia. destruct (Z.testbit d (m + rh_en)), (m + rh_en + lh_st <? 8), (rh_en <=? m + rh_en); reflexivity.
+      + rewrite (testbit_byte_high d) by lia. reflexivity.
+    - (* first of several bytes *)
+      usub_ok. replace (len - (8 - lh_st) <=? 0) with false by lia. unfold u8_cast, shl.
+      replace ((0 <=? len - (8 - lh_st) - 0) && (len - (8 - lh_st) - 0 <? bits)) with true by lia. cbn [bind].
+      eexists. split; [f_equal; f_equal; lia|]. split; [apply canon_lor; [lia|exact Hcv|apply canon_wrapc; lia]|].
+      intros m Hm. rewrite Z.lor_spec. f_equal. rewrite testbit_wrapc by lia.
+      rewrite Z.mul_pow2_bits by lia.
+      replace (m - (len + lh_st - 8 * (i + 1))) with (m - (len - (8 - lh_st) - 0)) by lia.
+      set (t := m - (len - (8 - lh_st) - 0)).
+      destruct (Z.leb_spec 0 t) as [Hz0|Hz0]; [|rewrite Z.testbit_neg_r by lia; reflexivity].
+      rewrite testbit_wrapc by lia. rewrite Z.land_spec. cbn [andb].
+      destruct (Z.ltb_spec t 8) as [Hz8|Hz8]; cbn [andb].
+      + rewrite testbit_mask_r by lia. rewrite andb_true_r. destruct (Z.testbit d t), (t + lh_st <? 8); reflexivity.
+      + rewrite (testbit_byte_high d) by lia. reflexivity.
+    - (* last of several bytes *)
+      usub_ok. unfold u8_cast.
+      eexists. split; [f_equal; f_equal; lia|]. split; [apply canon_lor; [lia|exact Hcv|apply canon_wrapc; lia]|].
+      intros m Hm. rewrite Z.lor_spec. f_equal. rewrite testbit_wrapc by lia.
+      replace (rh_en - (len - 8 * i + lh_st - (8 - rh_en))) with rh_en by lia.
+      rewrite Z.shiftr_spec by lia. rewrite Z.land_spec.
+      destruct (Z.leb_spec 0 (m - (len + lh_st - 8 * (i + 1)))) as [Hz0|Hz0]; [|lia].
+      replace (m - (len + lh_st - 8 * (i + 1))) with (m + rh_en) by lia.
+      destruct (Z.ltb_spec (m + rh_en) 8) as [Hz8|Hz8]; cbn [andb].
+      + rewrite testbit_mask_l by lia. destruct (Z.testbit d (m + rh_en)), (rh_en <=? m + rh_en); reflexivity.
+      + rewrite (testbit_byte_high d) by lia. reflexivity.
+    - (* a middle byte *)
+      usub_ok. replace (len - 8 * i + lh_st - 8 <=? 0) with false by lia. unfold u8_cast, shl.
+      replace ((0 <=? len - 8 * i + lh_st - 8 - 0) && (len - 8 * i + lh_st - 8 - 0 <? bits)) with true by lia. cbn [bind].
+      eexists. split; [f_equal; f_equal; lia|]. split; [apply canon_lor; [lia|exact Hcv|apply canon_wrapc; lia]|].
+      intros m Hm. rewrite Z.lor_spec. f_equal. rewrite testbit_wrapc by lia.
+      rewrite Z.mul_pow2_bits by lia.
+      replace (m - (len + lh_st - 8 * (i + 1))) with (m - (len - 8 * i + lh_st - 8 - 0)) by lia.
+      set (t := m - (len - 8 * i + lh_st - 8 - 0)).
+      destruct (Z.leb_spec 0 t) as [Hz0|Hz0]; [|rewrite Z.testbit_neg_r by lia; reflexivity].
+      rewrite testbit_wrapc by lia. cbn [andb].
+      destruct (Z.ltb_spec t 8) as [Hz8|Hz8]; cbn [andb]; [reflexivity|].
+      rewrite (testbit_byte_high d) by lia. reflexivity.
+  Qed.
+End ParseStep.
+
+(** ---------- the loop of Parser::parse ---------- *)
+Section ParseLoop.
+  Variables (k : ckind) (bits lh_st rh_en dlen len offset : Z) (sti : nat) (data : list Z).
+  Hypothesis Hlh : 0 <= lh_st < 8.
+  Hypothesis Hrh : 0 <= rh_en < 8.
+  Hypothesis Hdlen : 1 <= dlen.
+  Hypothesis Hsum : 8 * dlen = lh_st + len + rh_en.
+  Hypothesis Hlen : 1 <= len <= bits.
+  Hypothesis Hbits : 8 <= bits.
+  Hypothesis Hoff : offset = 8 * Z.of_nat sti + lh_st.
+  Hypothesis Hwin : (sti + Z.to_nat dlen <= length data)%nat.
+  Hypothesis Hb : bytes_ok data = true.
+
+  Definition src (m : Z) : bool := bitat data (offset + len - 1 - m).
+
+  (** bits [lo, len) of the value have been read so far *)
+  Definition filled (lo val : Z) : Prop :=
+    canon k bits val /\ forall m, 0 <= m < bits -> Z.testbit val m = (lo <=? m) && (m <? len) && src m.
+
+  Lemma src_byte i m : 0 <= i < dlen -> 0 <= m ->
+    0 <= src_t lh_st len i m < 8 ->
+    Z.testbit (nth (sti + Z.to_nat i) data 0) (src_t lh_st len i m) = src m.
+  Proof.
+    intros Hi Hm Ht. unfold src, bitat, znth, src_t in *.
+    set (g := offset + len - 1 - m).
+    assert (Hg : g = 8 * (Z.of_nat sti + i) + (7 - (m - (len + lh_st - 8 * (i + 1))))) by (unfold g; lia).
+    assert (Hq : g / 8 = Z.of_nat sti + i) by (symmetry; apply Z.div_unique with (7 - (m - (len + lh_st - 8 * (i + 1)))); lia).
+    assert (Hr : g mod 8 = 7 - (m - (len + lh_st - 8 * (i + 1)))) by (symmetry; apply Z.mod_unique with (Z.of_nat sti + i); lia).
+    rewrite Hq, Hr. f_equal; [f_equal; lia|lia].
+  Qed.
+
+  Lemma window_cond i m : 0 <= i < dlen -> 0 <= m ->
+    (0 <=? src_t lh_st len i m) && (src_t lh_st len i m <? 8) && in_bset lh_st rh_en dlen i (src_t lh_st len i m)
+    = (lenlft_out lh_st dlen len i <=? m) && (m <? lenlft_in lh_st len i).
+  Proof.
+    intros Hi Hm. unfold src_t, in_bset, lenlft_out, lenlft_in.
+    destruct (Z.eqb_spec i 0), (Z.eqb_spec i (dlen - 1));
+      repeat match goal with |- context [?a <=? ?b] => destruct (Z.leb_spec a b) | |- context [?a <? ?b] => destruct (Z.ltb_spec a b) end;
+      cbn [andb]; try reflexivity; lia.
+  Qed.
+
+  Lemma lenlft_bounds i : 0 <= i < dlen -> 0 <= lenlft_out lh_st dlen len i <= lenlft_in lh_st len i /\ lenlft_in lh_st len i <= len.
+  Proof. intros Hi. unfold lenlft_out, lenlft_in. destruct (Z.eqb_spec i 0), (Z.eqb_spec i (dlen - 1)); lia. Qed.
+
+  Lemma parse_loop_spec : forall n i val, Z.of_nat n = dlen - i -> 0 <= i ->
+    filled (lenlft_in lh_st len i) val ->
+    exists v, parse_loop k bits lh_st rh_en dlen sti n i data (lenlft_in lh_st len i) val = Ok v /\
+              (n = O -> v = val) /\ ((0 < n)%nat -> filled 0 v).
+  Proof.
+    induction n as [|n IH]; intros i val Hn Hi Hf.
+    - exists val. cbn [parse_loop]. split; [reflexivity|]. split; [reflexivity|lia].
+    - cbn [parse_loop]. set (j0 := (sti + Z.to_nat i)%nat).
+      assert (Hj0 : (j0 < length data)%nat) by (unfold j0; lia).
+      rewrite (nth_error_nth data j0 Hj0).
+      destruct Hf as [Hcv Hfb].
+      destruct (parse_step_ok k bits lh_st rh_en dlen len Hlh Hrh Hsum Hlen Hbits i (nth j0 data 0) val ltac:(lia) (bytes_ok_nth data j0 Hb) Hcv)
+        as [val' [Hstep [Hcv' Hbits']]].
+      rewrite Hstep. cbn [bind].
+      assert (Hf' : filled (lenlft_out lh_st dlen len i) val').
+      { split; [exact Hcv'|]. intros m Hm. rewrite (Hbits' m Hm), (Hfb m Hm).
+        rewrite (window_cond i m) by lia.
+        destruct (lenlft_bounds i ltac:(lia)) as [[B0 B1] B2].
+        destruct (Z.leb_spec (lenlft_out lh_st dlen len i) m) as [Hlo|Hlo]; destruct (Z.ltb_spec m (lenlft_in lh_st len i)) as [Hhi|Hhi]; cbn [andb].
+        - (* this byte supplies bit m *)
+          replace (lenlft_in lh_st len i <=? m) with false by lia. cbn [andb orb].
+          replace (m <? len) with true by lia. cbn [andb].
+          assert (Hc := window_cond i m ltac:(lia) ltac:(lia)).
+          replace ((lenlft_out lh_st dlen len i <=? m) && (m <? lenlft_in lh_st len i)) with true in Hc by lia.
+          apply andb_true_iff in Hc. destruct Hc as [Hc _]. apply andb_true_iff in Hc. destruct Hc as [Hc1 Hc2].
+          apply src_byte; lia.
+        - replace (lenlft_in lh_st len i <=? m) with true by lia. rewrite orb_false_r. reflexivity.
+        - replace (lenlft_in lh_st len i <=? m) with false by lia. reflexivity.
+        - lia. }
+      destruct n as [|n'].
+      + cbn [parse_loop]. exists val'. split; [reflexivity|]. split; [discriminate|]. intros _.
+        assert (Hil : i = dlen - 1) by lia.
+        replace 0 with (lenlft_out lh_st dlen len i); [exact Hf'|]. unfold lenlft_out. destruct (Z.eqb_spec i (dlen - 1)); lia.
+      + assert (Hil : 0 <= i < dlen - 1) by lia.
+        rewrite (lenlft_step lh_st dlen len i Hil) in *.
+        destruct (IH (i + 1) val' ltac:(lia) ltac:(lia) Hf') as [v [Hloop [_ Hfin]]].
+        exists v. split; [exact Hloop|]. split; [discriminate|]. intros _. apply Hfin. lia.
+  Qed.
+End ParseLoop.
+
+(** ---------- Parser::parse ---------- *)
+Theorem parse_bits k bits data offset len :
+  8 <= bits -> 1 <= len <= bits -> 0 <= offset -> offset + len <= 8 * zlen data -> bytes_ok data = true ->
+  exists v, canon k bits v /\
+            (forall m, 0 <= m < bits -> Z.testbit v m = (m <? len) && bitat data (offset + len - 1 - m)) /\
+            parse k bits data offset len = (r <- sign_fix k bits v len ;; Ok (r, offset + len)).
+Proof.
+  intros Hbits Hlen Ho Hfit Hb. unfold parse.
+  destruct (Z.ltb_spec (zlen data * 8) (offset + len)) as [Hlt|_]; [lia|].
+  destruct (window_arith offset len Ho ltac:(lia)) as [Hlh [Hrh [Hdlen [Hsum Hoff]]]].
+  set (lh_st := offset mod 8) in *. set (rh_en := (8 - (offset + len) mod 8) mod 8) in *.
+  set (sti := offset / 8) in *. set (dlen := (offset + len - 1) / 8 - sti + 1) in *.
+  unfold usub. destruct (Z.leb_spec 1 (offset + len)) as [_|Hc]; [|lia]. cbn [bind].
+  change ((offset + len - 1) / 8 - sti + 1) with dlen.
+  assert (Hsti : 0 <= sti) by (unfold sti; apply Z.div_pos; lia).
+  assert (Hwin : (Z.to_nat sti + Z.to_nat dlen <= length data)%nat).
+  { unfold zlen in Hfit. assert (8 * (sti + dlen) <= 8 * Z.of_nat (length data)) by lia. lia. }
+  assert (Hoff' : offset = 8 * Z.of_nat (Z.to_nat sti) + lh_st) by lia.
+  assert (Hf0 : filled k bits len offset data (lenlft_in lh_st len 0) 0).
+  { split; [apply canon_0; lia|]. intros m Hm. rewrite Z.bits_0. change (lenlft_in lh_st len 0) with len.
+    destruct (Z.leb_spec len m), (Z.ltb_spec m len); cbn [andb]; try reflexivity; lia. }
+  destruct (parse_loop_spec k bits lh_st rh_en dlen len offset (Z.to_nat sti) data Hlh Hrh Hdlen Hsum Hlen Hbits Hoff' Hwin Hb
+              (Z.to_nat dlen) 0 0 ltac:(lia) ltac:(lia) Hf0) as [v [Hloop [_ Hfin]]].
+  change (lenlft_in lh_st len 0) with len in Hloop. rewrite Hloop. cbn [bind].
+  destruct (Hfin ltac:(lia)) as [Hcv Hbitsv].
+  exists v. split; [exact Hcv|]. split; [|reflexivity].
+  intros m Hm. rewrite (Hbitsv m Hm). replace (0 <=? m) with true by lia. reflexivity.
+Qed.
+
+Theorem parse_overflow k bits data offset len :
+  8 * zlen data < offset + len -> parse k bits data offset len = Err BufferOverflow.
+Proof. intros H. unfold parse. destruct (Z.ltb_spec (zlen data * 8) (offset + len)); [reflexivity|lia]. Qed.
+
+(** ---------- sign handling: BitValue::sign_fix / sign_fix_rev ---------- *)
+Definition representable (k : ckind) (len v : Z) : Prop :=
+  match k with
+  | KU => 0 <= v < 2 ^ len
+  | KI => - 2 ^ (len - 1) <= v < 2 ^ (len - 1)
+  | KSM => - (2 ^ (len - 1) - 1) <= v <= 2 ^ (len - 1) - 1
+  end.
+
+Lemma mod_eq_of_bits a b n : 0 <= n -> (forall m, 0 <= m < n -> Z.testbit a m = Z.testbit b m) -> a mod 2 ^ n = b mod 2 ^ n.
+Proof.
+  intros Hn H. apply Z.bits_inj'. intros m Hm. destruct (Z_lt_ge_dec m n).
+  - rewrite !Z.mod_pow2_bits_low by lia. apply H. lia.
+  - rewrite !Z.mod_pow2_bits_high by lia. reflexivity.
+Qed.
+
+Lemma canon_eq k bits a b : 0 < bits -> canon k bits a -> canon k bits b -> a mod 2 ^ bits = b mod 2 ^ bits -> a = b.
+Proof. intros Hb Ha Hc H. rewrite <- Ha, <- Hc. apply wrapc_congr. exact H. Qed.
+
+Lemma canon_eq_bits k bits a b : 0 < bits -> canon k bits a -> canon k bits b ->
+  (forall m, 0 <= m < bits -> Z.testbit a m = Z.testbit b m) -> a = b.
+Proof. intros Hb Ha Hc H. apply (canon_eq k bits); try assumption. apply mod_eq_of_bits; [lia|exact H]. Qed.
+
+Lemma testbit_small x n m : 0 <= x < 2 ^ n -> n <= m -> Z.testbit x m = false.
+Proof.
+  intros Hx Hm. destruct (Z.eq_dec x 0) as [->|Hz]; [apply Z.bits_0|].
+  assert (0 <= n) by (destruct (Z_lt_ge_dec n 0); [rewrite Z.pow_neg_r in Hx by lia; lia|lia]).
+  apply Z.bits_above_log2; [lia|]. apply Z.lt_le_trans with n; [apply Z.log2_lt_pow2; lia|lia].
+Qed.
+
+Lemma land_pow2_test a n : 0 <= n -> (Z.land a (2 ^ n) =? 0) = negb (Z.testbit a n).
+Proof.
+  intros Hn. destruct (Z.testbit a n) eqn:E; cbn [negb].
+  - apply Z.eqb_neq. intros H0. assert (Hb : Z.testbit (Z.land a (2 ^ n)) n = true) by (rewrite Z.land_spec, E, Z.pow2_bits_true by lia; reflexivity).
+    rewrite H0, Z.bits_0 in Hb. discriminate.
+  - apply Z.eqb_eq. apply Z.bits_inj'. intros m Hm. rewrite Z.land_spec, Z.bits_0, Z.pow2_bits_eqb by lia.
+    destruct (Z.eqb_spec n m) as [<-|]; [rewrite E; reflexivity|apply andb_false_r].
+Qed.
+
+Lemma shl_eq k bits v n : 0 <= n < bits -> shl k bits v n = Ok (wrapc k bits (v * 2 ^ n)).
+Proof. intros H. unfold shl. replace ((0 <=? n) && (n <? bits)) with true by lia. reflexivity. Qed.
+
+Lemma wrapc_in_range k bits x : 1 <= bits -> cmin k bits <= x <= cmax k bits -> wrapc k bits x = x.
+Proof. intros Hb Hr. apply canon_range; assumption. Qed.
+
+Lemma pow2_half n : 1 <= n -> 2 ^ n = 2 * 2 ^ (n - 1).
+Proof. intros. replace n with (1 + (n - 1)) at 1 by lia. rewrite Z.pow_add_r by lia. reflexivity. Qed.
+
+Lemma pow2_le_mono a b : 0 <= a <= b -> 2 ^ a <= 2 ^ b.
+Proof. intros. apply Z.pow_le_mono_r; lia. Qed.
+
+(** the sign-fixed value handed to the writer has the right low bits; stated per kind below *)
+Lemma sign_fix_rev_ku bits v len : sign_fix_rev KU bits v len = Ok v.
+Proof. reflexivity. Qed.
+Lemma sign_fix_rev_ki bits v len : sign_fix_rev KI bits v len = Ok v.
+Proof. reflexivity. Qed.
+
+Lemma lnot_neg_pow2 n : 0 <= n -> Z.lnot (- 2 ^ n) = Z.ones n.
+Proof. intros. unfold Z.lnot. rewrite Z.ones_equiv. f_equal. lia. Qed.
+
+Lemma sign_fix_rev_ksm bits v len : 8 <= bits -> 1 <= len <= bits -> representable KSM len v ->
+  exists v', sign_fix_rev KSM bits v len = Ok v' /\
+             (forall m, 0 <= m < len -> Z.testbit v' m = if m =? len - 1 then (v <? 0) else Z.testbit (Z.abs v) m).
+Proof.
+  intros Hb Hl Hr. cbn [representable] in Hr. unfold sign_fix_rev, usub.
+  destruct (Z.leb_spec 1 len) as [_|]; [|lia]. cbn [bind]. rewrite shl_eq by lia. cbn [bind].
+  pose proof (pow2_pos (len - 1) ltac:(lia)) as Hp. pose proof (pow2_le_mono (len - 1) (bits - 1) ltac:(lia)) as Hle.
+  pose proof (pow2_half bits ltac:(lia)) as Hh.
+  assert (Hm : wrapc KSM bits (-1 * 2 ^ (len - 1)) = - 2 ^ (len - 1)).
+  { replace (-1 * 2 ^ (len - 1)) with (- 2 ^ (len - 1)) by ring. apply wrapc_in_range; [lia|]. unfold cmin, cmax. cbn [signed_kind]. lia. }
+  rewrite Hm, lnot_neg_pow2 by lia.
+  destruct (Z.leb_spec 0 v) as [Hpos|Hneg].
+  - eexists. split; [reflexivity|]. intros m Hmm. rewrite Z.land_ones by lia. rewrite Z.mod_small by lia.
+    replace (v <? 0) with false by lia. rewrite Z.abs_eq by lia.
+    destruct (Z.eqb_spec m (len - 1)) as [->|]; [apply (testbit_small v (len - 1)); lia|reflexivity].
+  - assert (Hw : wrapc KSM bits (- v) = - v) by (apply wrapc_in_range; [lia|]; unfold cmin, cmax; cbn [signed_kind]; lia).
+    rewrite Hw. rewrite Z.land_ones by lia. rewrite (Z.mod_small (- v)) by lia.
+    destruct (Z.eqb_spec (- v) 0); [lia|]. rewrite shl_eq by lia. cbn [bind].
+    eexists. split; [reflexivity|]. intros m Hmm. rewrite Z.lor_spec, testbit_wrapc by lia.
+    replace (1 * 2 ^ (len - 1)) with (2 ^ (len - 1)) by ring. rewrite Z.pow2_bits_eqb by lia.
+    replace (v <? 0) with true by lia. replace (Z.abs v) with (- v) by lia.
+    destruct (Z.eqb_spec m (len - 1)) as [->|Hne].
+    + rewrite Z.eqb_refl. apply orb_true_r.
+    + replace (len - 1 =? m) with false by lia. apply orb_false_r.
+Qed.
+
+Lemma testbit_mod_pow2 a n m : 0 <= n -> 0 <= m -> Z.testbit (a mod 2 ^ n) m = (m <? n) && Z.testbit a m.
+Proof.
+  intros Hn Hm. destruct (Z.ltb_spec m n); cbn [andb]; [apply Z.mod_pow2_bits_low; lia|apply Z.mod_pow2_bits_high; lia].
+Qed.
+
+Lemma sign_fix_roundtrip_ku bits value len v : 8 <= bits -> 1 <= len <= bits -> 0 <= value < 2 ^ len ->
+  canon KU bits v -> (forall m, 0 <= m < bits -> Z.testbit v m = (m <? len) && Z.testbit value m) ->
+  sign_fix KU bits v len = Ok value.
+Proof.
+  intros Hb Hl Hr Hc Hbits. cbn [sign_fix]. f_equal.
+  apply (canon_eq_bits KU bits); [lia|exact Hc| |].
+  - apply canon_range; [lia|]. unfold cmin, cmax. cbn [signed_kind]. pose proof (pow2_le_mono len bits ltac:(lia)). lia.
+  - intros m Hm. rewrite (Hbits m Hm). destruct (Z.ltb_spec m len); cbn [andb]; [reflexivity|].
+    symmetry. apply (testbit_small value len); lia.
+Qed.
+
+Lemma testbit_sign_nonneg x n : 0 <= n -> 0 <= x < 2 ^ n -> Z.testbit x n = false.
+Proof. intros. apply (testbit_small x n); lia. Qed.
+
+Lemma testbit_sign_neg x n : 0 <= n -> - 2 ^ n <= x < 0 -> Z.testbit x n = true.
+Proof.
+  intros Hn Hx. replace x with (- (- x)) by lia. rewrite Z.bits_opp by lia.
+  replace (Z.testbit (Z.pred (- x)) n) with false; [reflexivity|]. symmetry. apply (testbit_small (Z.pred (- x)) n); lia.
+Qed.
+
+Lemma sign_fix_roundtrip_ki bits value len v : 8 <= bits -> 1 <= len <= bits -> - 2 ^ (len - 1) <= value < 2 ^ (len - 1) ->
+  canon KI bits v -> (forall m, 0 <= m < bits -> Z.testbit v m = (m <? len) && Z.testbit value m) ->
+  sign_fix KI bits v len = Ok value.
+Proof.
+  intros Hb Hl Hr Hc Hbits. cbn [sign_fix]. unfold usub. destruct (Z.leb_spec 1 len) as [_|]; [|lia]. cbn [bind].
+  rewrite shl_eq by lia. cbn [bind].
+  pose proof (pow2_pos (len - 1) ltac:(lia)) as Hp. pose proof (pow2_half len ltac:(lia)) as Hhl. pose proof (pow2_half bits ltac:(lia)) as Hhb.
+  destruct (Z.eqb_spec len bits) as [Heq|Hne].
+  - (* full width: the carrier value itself *)
+    rewrite orb_true_r. f_equal. subst len.
+    apply (canon_eq_bits KI bits); [lia|exact Hc| |].
+    + apply canon_range; [lia|]. unfold cmin, cmax. cbn [signed_kind]. lia.
+    + intros m Hm. rewrite (Hbits m Hm). replace (m <? bits) with true by lia. reflexivity.
+  - assert (Hlt : len < bits) by lia. rewrite orb_false_r.
+    pose proof (pow2_le_mono len (bits - 1) ltac:(lia)) as Hle.
+    assert (Hone : wrapc KI bits (1 * 2 ^ (len - 1)) = 2 ^ (len - 1)).
+    { replace (1 * 2 ^ (len - 1)) with (2 ^ (len - 1)) by ring. apply wrapc_in_range; [lia|]. unfold cmin, cmax. cbn [signed_kind]. lia. }
+    rewrite Hone. rewrite land_pow2_test by lia. rewrite (Hbits (len - 1)) by lia. replace (len - 1 <? len) with true by lia. cbn [andb].
+    assert (Hv : v = value mod 2 ^ len).
+    { apply (canon_eq_bits KI bits); [lia|exact Hc| |].
+      - apply canon_range; [lia|]. unfold cmin, cmax. cbn [signed_kind]. pose proof (Z.mod_pos_bound value (2 ^ len) ltac:(lia)). lia.
+      - intros m Hm. rewrite (Hbits m Hm). rewrite testbit_mod_pow2 by lia. reflexivity. }
+    destruct (Z_lt_ge_dec value 0) as [Hneg|Hpos].
+    + rewrite (testbit_sign_neg value (len - 1)) by lia. cbn [negb]. rewrite shl_eq by lia. cbn [bind]. f_equal.
+      assert (Hm : wrapc KI bits (-1 * 2 ^ len) = -1 * 2 ^ len).
+      { apply wrapc_in_range; [lia|]. unfold cmin, cmax. cbn [signed_kind]. lia. }
+      rewrite Hm, Z.lor_comm. rewrite lor_disjoint by (try lia; rewrite Hv; apply Z.mod_pos_bound; lia).
+      rewrite Hv. assert (E : value mod 2 ^ len = value + 2 ^ len) by (symmetry; apply Z.mod_unique with (-1); lia). lia.
+    + rewrite (testbit_sign_nonneg value (len - 1)) by lia. cbn [negb]. f_equal. rewrite Hv. apply Z.mod_small. lia.
+Qed.
+
+Lemma land_sign_test bits v len : 8 <= bits -> 1 <= len <= bits -> canon KSM bits v ->
+  (Z.land v (wrapc KSM bits (1 * 2 ^ (len - 1))) =? 0) = negb (Z.testbit v (len - 1)).
+Proof.
+  intros Hb Hl Hc. replace (1 * 2 ^ (len - 1)) with (2 ^ (len - 1)) by ring.
+  pose proof (pow2_pos (len - 1) ltac:(lia)) as Hp. pose proof (pow2_half bits ltac:(lia)) as Hhb.
+  destruct (Z.eq_dec len bits) as [Heq|Hne].
+  - (* the sign bit is the carrier's own sign bit: one = -2^(bits-1) *)
+    subst len.
+    assert (Hone : wrapc KSM bits (2 ^ (bits - 1)) = - 2 ^ (bits - 1)).
+    { unfold wrapc. cbn [signed_kind andb]. rewrite Z.mod_small by lia. destruct (Z.leb_spec (2 ^ (bits - 1)) (2 ^ (bits - 1))); lia. }
+    rewrite Hone.
+    apply canon_range in Hc; [|lia]. unfold cmin, cmax in Hc. cbn [signed_kind] in Hc.
+    destruct (Z_lt_ge_dec v 0) as [Hneg|Hpos].
+    + rewrite (testbit_sign_neg v (bits - 1)) by lia. cbn [negb]. apply Z.eqb_neq. intros H0.
+      assert (Hbt : Z.testbit (Z.land v (- 2 ^ (bits - 1))) (bits - 1) = true).
+      { rewrite Z.land_spec, (testbit_sign_neg v (bits - 1)), (testbit_sign_neg (- 2 ^ (bits - 1)) (bits - 1)) by lia. reflexivity. }
+      rewrite H0, Z.bits_0 in Hbt. discriminate.
+    + rewrite (testbit_sign_nonneg v (bits - 1)) by lia. cbn [negb]. apply Z.eqb_eq. apply Z.bits_inj'. intros m Hm.
+      rewrite Z.land_spec, Z.bits_0. destruct (Z_lt_ge_dec m (bits - 1)).
+      * replace (- 2 ^ (bits - 1)) with ((-1) * 2 ^ (bits - 1)) by ring. rewrite Z.mul_pow2_bits_low by lia. apply andb_false_r.
+      * rewrite (testbit_small v (bits - 1)) by lia. reflexivity.
+  - pose proof (pow2_le_mono (len - 1) (bits - 2) ltac:(lia)) as Hle.
+    assert (Hh2 : 2 ^ (bits - 1) = 2 * 2 ^ (bits - 2)) by (replace (bits - 2) with (bits - 1 - 1) by lia; apply pow2_half; lia).
+    rewrite wrapc_in_range by (try lia; unfold cmin, cmax; cbn [signed_kind]; lia).
+    apply land_pow2_test. lia.
+Qed.
+
+Lemma sign_fix_roundtrip_ksm bits value len value' v : 8 <= bits -> 1 <= len <= bits -> representable KSM len value ->
+  (forall m, 0 <= m < len -> Z.testbit value' m = if m =? len - 1 then (value <? 0) else Z.testbit (Z.abs value) m) ->
+  canon KSM bits v -> (forall m, 0 <= m < bits -> Z.testbit v m = (m <? len) && Z.testbit value' m) ->
+  sign_fix KSM bits v len = Ok value.
+Proof.
+  intros Hb Hl Hr Hv' Hc Hbits. cbn [representable] in Hr. cbn [sign_fix]. unfold usub. destruct (Z.leb_spec 1 len) as [_|]; [|lia]. cbn [bind].
+  rewrite shl_eq by lia. cbn [bind]. rewrite land_sign_test by assumption.
+  rewrite (Hbits (len - 1)) by lia. replace (len - 1 <? len) with true by lia. cbn [andb].
+  rewrite (Hv' (len - 1)) by lia. rewrite Z.eqb_refl.
+  pose proof (pow2_pos (len - 1) ltac:(lia)) as Hp. pose proof (pow2_le_mono (len - 1) (bits - 1) ltac:(lia)) as Hle.
+  pose proof (pow2_half bits ltac:(lia)) as Hhb.
+  (* the magnitude is what the low len-1 bits of v hold *)
+  assert (Hmag : v mod 2 ^ (len - 1) = Z.abs value).
+  { rewrite <- (Z.mod_small (Z.abs value) (2 ^ (len - 1))) by lia. apply mod_eq_of_bits; [lia|]. intros m Hm.
+    rewrite (Hbits m) by lia. replace (m <? len) with true by lia. cbn [andb]. rewrite (Hv' m) by lia.
+    replace (m =? len - 1) with false by lia. reflexivity. }
+  destruct (Z.ltb_spec value 0) as [Hneg|Hpos]; cbn [negb].
+  - rewrite shl_eq by lia. cbn [bind].
+    assert (Hm : wrapc KSM bits (-1 * 2 ^ (len - 1)) = - 2 ^ (len - 1)).
+    { replace (-1 * 2 ^ (len - 1)) with (- 2 ^ (len - 1)) by ring. apply wrapc_in_range; [lia|]. unfold cmin, cmax. cbn [signed_kind]. lia. }
+    rewrite Hm, lnot_neg_pow2 by lia. rewrite Z.land_ones by lia. rewrite Hmag.
+    replace (-1 * Z.abs value) with value by lia.
+    replace (in_carrier KSM bits value) with true; [reflexivity|]. symmetry. unfold in_carrier, cmin, cmax. cbn [signed_kind]. lia.
+  - f_equal. apply (canon_eq_bits KSM bits); [lia|exact Hc| |].
+    + apply canon_range; [lia|]. unfold cmin, cmax. cbn [signed_kind]. lia.
+    + intros m Hm. rewrite (Hbits m Hm). destruct (Z.ltb_spec m len) as [Hml|Hml]; cbn [andb].
+      * rewrite (Hv' m) by lia. destruct (Z.eqb_spec m (len - 1)) as [->|Hne].
+        -- replace (value <? 0) with false by lia. symmetry. apply (testbit_small value (len - 1)); lia.
+        -- rewrite Z.abs_eq by lia. reflexivity.
+      * symmetry. apply (testbit_small value (len - 1)); lia.
+Qed.
+
+(** ---------- reading back what was written ---------- *)
+Theorem put_parse_roundtrip k bits data offset value len :
+  8 <= bits -> 1 <= len <= bits -> 0 <= offset -> offset + len <= 8 * zlen data -> bytes_ok data = true ->
+  representable k len value ->
+  exists data', put k bits data offset value len = Ok (data', offset + len) /\
+                parse k bits data' offset len = Ok (value, offset + len).
+Proof.
+  intros Hb Hl Ho Hfit Hbd Hr.
+  assert (Hsfr : exists value', sign_fix_rev k bits value len = Ok value' /\
+                   forall v, canon k bits v -> (forall m, 0 <= m < bits -> Z.testbit v m = (m <? len) && Z.testbit value' m) ->
+                             sign_fix k bits v len = Ok value).
+  { destruct k.
+    - exists value. split; [reflexivity|]. intros v Hc Hv. apply sign_fix_roundtrip_ku; assumption.
+    - exists value. split; [reflexivity|]. intros v Hc Hv. apply sign_fix_roundtrip_ki; assumption.
+    - destruct (sign_fix_rev_ksm bits value len Hb Hl Hr) as [value' [E Hv']]. exists value'. split; [exact E|].
+      intros v Hc Hv. eapply sign_fix_roundtrip_ksm; eassumption. }
+  destruct Hsfr as [value' [Hsfr Hfix]].
+  destruct (put_bits k bits data offset value len value' Hb Hl Ho Hfit Hbd Hsfr) as [data' [Hput [Hz [Hbd' Hspec]]]].
+  exists data'. split; [exact Hput|].
+  destruct (parse_bits k bits data' offset len Hb Hl Ho ltac:(lia) Hbd') as [v [Hc [Hv Hparse]]].
+  rewrite Hparse. rewrite (Hfix v Hc); [reflexivity|].
+  intros m Hm. rewrite (Hv m Hm). destruct (Z.ltb_spec m len) as [Hml|Hml]; cbn [andb]; [|reflexivity].
+  rewrite Hspec by lia. replace ((offset <=? offset + len - 1 - m) && (offset + len - 1 - m <? offset + len)) with true by lia.
+  f_equal. lia.
+Qed.
+
+(** reading never panics *)
+Lemma sign_fix_no_panic k bits v len : 8 <= bits -> 1 <= len <= bits -> canon k bits v -> sign_fix k bits v len <> Panic.
+Proof.
+  intros Hb Hl Hc. destruct k; cbn [sign_fix]; unfold usub.
+  - discriminate.
+  - destruct (Z.leb_spec 1 len) as [_|]; [|lia]. cbn [bind]. rewrite shl_eq by lia. cbn [bind].
+    destruct (Z.eqb_spec len bits); [rewrite orb_true_r; discriminate|]. rewrite orb_false_r.
+    destruct (_ =? 0); [discriminate|]. rewrite shl_eq by lia. discriminate.
+  - destruct (Z.leb_spec 1 len) as [_|]; [|lia]. cbn [bind]. rewrite shl_eq by lia. cbn [bind].
+    destruct (_ =? 0); [discriminate|]. rewrite shl_eq by lia. cbn [bind].
+    pose proof (pow2_pos (len - 1) ltac:(lia)) as Hp. pose proof (pow2_le_mono (len - 1) (bits - 1) ltac:(lia)) as Hle.
+    assert (Hm : wrapc KSM bits (-1 * 2 ^ (len - 1)) = - 2 ^ (len - 1)).
+    { replace (-1 * 2 ^ (len - 1)) with (- 2 ^ (len - 1)) by ring. apply wrapc_in_range; [lia|]. unfold cmin, cmax. cbn [signed_kind]. lia. }
+    rewrite Hm, lnot_neg_pow2 by lia. rewrite Z.land_ones by lia.
+    pose proof (Z.mod_pos_bound v (2 ^ (len - 1)) ltac:(lia)).
+    replace (in_carrier KSM bits (-1 * (v mod 2 ^ (len - 1)))) with true; [discriminate|].
+    symmetry. unfold in_carrier, cmin, cmax. cbn [signed_kind]. lia.
+Qed.
+
+Theorem parse_no_panic k bits data offset len :
+  8 <= bits -> 1 <= len <= bits -> 0 <= offset -> bytes_ok data = true -> parse k bits data offset len <> Panic.
+Proof.
+  intros Hb Hl Ho Hbd. destruct (Z_lt_ge_dec (8 * zlen data) (offset + len)) as [Hov|Hfit].
+  - rewrite parse_overflow by exact Hov. discriminate.
+  - destruct (parse_bits k bits data offset len Hb Hl Ho ltac:(lia) Hbd) as [v [Hc [_ Hparse]]]. rewrite Hparse.
+    pose proof (sign_fix_no_panic k bits v len Hb Hl Hc). destruct (sign_fix k bits v len); [discriminate|discriminate|contradiction].
+Qed.
+
+(** writing never panics either, for any value of the carrier type *)
+Lemma sign_fix_rev_no_panic k bits v len : 8 <= bits -> 1 <= len <= bits -> exists v', sign_fix_rev k bits v len = Ok v'.
+Proof.
+  intros Hb Hl. destruct k; cbn [sign_fix_rev]; try (eexists; reflexivity).
+  unfold usub. destruct (Z.leb_spec 1 len) as [_|]; [|lia]. cbn [bind]. rewrite shl_eq by lia. cbn [bind].
+  destruct (0 <=? v); [eexists; reflexivity|]. destruct (_ =? 0); [eexists; reflexivity|]. rewrite shl_eq by lia. eexists. reflexivity.
+Qed.
+
+Theorem put_no_panic k bits data offset value len :
+  8 <= bits -> 1 <= len <= bits -> 0 <= offset -> bytes_ok data = true -> put k bits data offset value len <> Panic.
+Proof.
+  intros Hb Hl Ho Hbd. destruct (Z_lt_ge_dec (8 * zlen data) (offset + len)) as [Hov|Hfit].
+  - rewrite put_overflow by exact Hov. discriminate.
+  - destruct (sign_fix_rev_no_panic k bits value len Hb Hl) as [v' Hv'].
+    destruct (put_bits k bits data offset value len v' Hb Hl Ho ltac:(lia) Hbd Hv') as [d' [E _]]. rewrite E. discriminate.
+Qed.
